@@ -712,8 +712,30 @@ fn check_str(r: jubako::Result<bool>) -> String {
 
 /// C04 observation: container check, file-level container-pack check, and the check of each
 /// pack of the damaged files cut out at its pristine span.
-fn observe_checks(entry: &Path, case_dir: &Path, names: &[String], spans: &[Vec<PackSpan>], touched: &[usize], extra: bool) -> Value {
+fn observe_checks(entry: &Path, case_dir: &Path, names: &[String], spans: &[Vec<PackSpan>], touched: &[usize], extra: bool, by_cli: bool) -> Value {
     use jubako::Pack;
+    // the repository's own command-line tool asked about every altered file, each in a process of
+    // its own (`jbk check <file>`): "ok" | "ko" | "error" | how the process ended
+    let mut cli_checks = BTreeMap::new();
+    if by_cli {
+        let cli = simcore::jbk_cli();
+        for &fi in touched {
+            let path = case_dir.join(&names[fi]);
+            let (out, err, how) = simcore::run_jbk_cli(&cli, &["check".as_ref(), path.as_os_str()]);
+            let answer = if how != "exit:0" {
+                how
+            } else if out.contains(" is ok") {
+                "ok".to_string()
+            } else if out.contains(" s ko") || out.contains(" is ko") {
+                "ko".to_string()
+            } else if err.contains("Error") {
+                "error".to_string()
+            } else {
+                format!("said: {}{}", out.lines().next().unwrap_or(""), err.lines().next().unwrap_or(""))
+            };
+            cli_checks.insert(names[fi].clone(), answer);
+        }
+    }
     // (asked twice of the same object, opened after the alteration: an error the first time must
     // not turn into "all is well" the second time)
     let mut container_again = "not-asked".to_string();
@@ -812,7 +834,7 @@ fn observe_checks(entry: &Path, case_dir: &Path, names: &[String], spans: &[Vec<
     // (whether a descriptor number below the limit happens to be free depends on when background
     // threads of earlier containers close theirs: judged like the others, but kept out of the
     // deterministic record - `timing_dependent` keys are dropped before a record is digested)
-    json!({"container": container, "container_asked_again": container_again, "container_after_use": container_used, "timing_dependent": {"container_without_descriptors": container_no_fd}, "files": file_checks, "packs": pack_checks})
+    json!({"container": container, "container_asked_again": container_again, "container_after_use": container_used, "timing_dependent": {"container_without_descriptors": container_no_fd}, "files": file_checks, "packs": pack_checks, "command_line_tool": cli_checks})
 }
 
 fn fault_hits_manifest_slot(fault: &Fault, spans: &[Vec<PackSpan>]) -> bool {
@@ -988,7 +1010,7 @@ pub fn child_main(args: &Args) -> ! {
         let broken_stderr = if mode == Mode::C06 && i % 7 == 4 { Some(proc::child::BrokenStderr::install()) } else { None };
         let payload = std::panic::catch_unwind(std::panic::AssertUnwindSafe(|| match mode {
             Mode::C04 => {
-                let mut obs = observe_checks(&entry, &case_dir, &names, &spans, &fault.files(), i % 3 == 0);
+                let mut obs = observe_checks(&entry, &case_dir, &names, &spans, &fault.files(), i % 3 == 0, i % 41 == 7);
                 let mut stale = serde_json::Map::new();
                 for (n, cp) in &held {
                     stale.insert(n.clone(), json!(check_str(cp.check())));
@@ -1258,6 +1280,11 @@ fn c04_violation(rec: &Value, exempt: bool) -> Option<String> {
             trues.push("ContainerPack::check(file)".to_string());
         }
     }
+    for (_, v) in obs["command_line_tool"].as_object().into_iter().flatten() {
+        if v == "ok" {
+            trues.push("`jbk check <file>` (the command-line tool) says ok".to_string());
+        }
+    }
     // Handles and pack objects opened BEFORE the alteration are observed (statistics in the
     // evidence) but not judged: a reader may legitimately cache what it has read (pack objects
     // cache their check info, directory packs are copied into memory), so only freshly opened
@@ -1488,6 +1515,7 @@ pub fn parent_main(args: &Args, mode: Mode) -> ! {
     let mut faultfree_seen: std::collections::BTreeSet<String> = std::collections::BTreeSet::new();
     let mut held_stale_true = 0u64;
     let mut held_noticed = 0u64;
+    let mut cli_answers: BTreeMap<String, u64> = BTreeMap::new();
     let mut exempt_counted = 0u64;
     let mut digests: Vec<String> = vec![];
     let mut deferred = 0u64;
@@ -1601,6 +1629,9 @@ pub fn parent_main(args: &Args, mode: Mode) -> ! {
                     exempt_counted += 1;
                 }
                 rec["damaged_pack"] = json!(damaged_pack);
+                for (_k, v) in rec["payload"]["obs"]["command_line_tool"].as_object().into_iter().flatten() {
+                    *cli_answers.entry(v.as_str().unwrap_or("?").to_string()).or_insert(0u64) += 1;
+                }
                 for (_k, v) in rec["payload"]["obs"]["held_handles"].as_object().into_iter().flatten() {
                     if v == "true" {
                         held_stale_true += 1;
@@ -1709,6 +1740,7 @@ pub fn parent_main(args: &Args, mode: Mode) -> ! {
     match mode {
         Mode::C04 => {
             ev.extra.insert("exempt_cases_location_bytes_or_shadowed_duplicate".into(), json!(exempt_counted));
+            ev.extra.insert("altered_files_asked_through_the_jbk_command_line_tool".into(), json!({"answers": cli_answers, "judged": "an 'ok' for a file with an altered checksummed byte is a violation", "real": "src/bin/jbk built from the repository's manifest, one process per question"}));
             ev.extra.insert("handles_opened_before_the_alteration".into(), json!({"answered_not_true": held_noticed, "answered_true_from_cached_state": held_stale_true, "judged": false}));
         }
         Mode::C05 => {
